@@ -24,4 +24,7 @@ ENTRIES = [
     Entry('benign-rotation-always-updates', E, [('        self.rotationPrec = np.array(rot)\n        if self.unrotated_cMatrix_4th.any():\n            self.update()', '        self.rotationPrec = np.array(rot)\n        if self.unrotated_cMatrix_4th.any() or self.unrotated_cPrec_4th.any():\n            self.update()')], kind='benign'),
     Entry('benign-moduli-regrouped', E, [('            G = 3*K*E / (9*K - E)', '            G = 3*E / (9 - E/K)')], kind='benign'),
     Entry('benign-bohm-named-intermediate', E, [('        stressC = self._multiply(cM4, self._multiply(self._multiply(S, multTerm), eigenstrain))', '        SA = self._multiply(S, multTerm)\n        stressC = self._multiply(cM4, self._multiply(SA, eigenstrain))')], kind='benign'),
+    Entry('benign-beta-negative-power', E, [('endTerm = 1 / self._beta(radius[0], radius[1], radius[2], self.midPhiGrid, self.midThetaGrid)**3', 'endTerm = self._beta(radius[0], radius[1], radius[2], self.midPhiGrid, self.midThetaGrid)**(-3)')], kind='benign'),
+    Entry('beta-squared-in-integrand', E, [('endTerm = 1 / self._beta(radius[0], radius[1], radius[2], self.midPhiGrid, self.midThetaGrid)**3', 'endTerm = 1 / self._beta(radius[0], radius[1], radius[2], self.midPhiGrid, self.midThetaGrid)**2')], 'R16.9'),
+    Entry('beta-offset-under-root', E, [('return np.sqrt(((a*np.cos(phi))**2 + (b*np.sin(phi))**2)*np.sin(theta)**2 + (c*np.cos(theta))**2)', 'return np.sqrt(((a*np.cos(phi))**2 + (b*np.sin(phi))**2)*np.sin(theta)**2 + (c*np.cos(theta))**2 + 1e-20)')], 'R16.9'),
 ]
